@@ -44,15 +44,16 @@ type retryCase struct {
 }
 
 type retryConc struct {
-	Policy   string `json:"policy"`    // concrete policy line
-	Kind     string `json:"kind"`      // key kind for hashed policies
-	Key      string `json:"key"`       // the key (uri / header value)
-	BodyLen  int    `json:"body_len"`  // request body length
-	Chunked  bool   `json:"chunked"`   // transfer framing of the client request
-	FailMode string `json:"fail_mode"` // "rst-after-body" | "rst-before-body"
-	Rules    bool   `json:"rules"`     // base path + query on the targets, without, header_upstream rules
-	Site     bool   `json:"site"`      // through a real casket site (casket.Start) instead of Proxy.ServeHTTP behind net/http
-	Clause   string `json:"clause,omitempty"`
+	Policy     string `json:"policy"`    // concrete policy line
+	Kind       string `json:"kind"`      // key kind for hashed policies
+	Key        string `json:"key"`       // the key (uri / header value)
+	BodyLen    int    `json:"body_len"`  // request body length
+	Chunked    bool   `json:"chunked"`   // transfer framing of the client request
+	FailMode   string `json:"fail_mode"` // "rst-after-body" | "rst-before-body" | "rst-mid-body"
+	SlowUpload bool   `json:"slow_upload,omitempty"`
+	Rules      bool   `json:"rules"` // base path + query on the targets, without, header_upstream rules
+	Site       bool   `json:"site"`  // through a real casket site (casket.Start) instead of Proxy.ServeHTTP behind net/http
+	Clause     string `json:"clause,omitempty"`
 }
 
 const (
@@ -151,9 +152,13 @@ func (bs *backendSet) handle(b int, c net.Conn) {
 	j := bs.counter
 	answer := (b <= len(sc.Rel) && sc.Rel[b-1]) || (j <= len(sc.OK) && sc.OK[j-1])
 	early := !answer && sc.Conc.FailMode == "rst-before-body"
+	mid := !answer && sc.Conc.FailMode == "rst-mid-body"
 	bs.mu.Unlock()
 	a := arrival{B: b, Attempt: j, Answer: answer, Line: reqLine(req)}
-	if !early {
+	if mid {
+		// the backend dies while the body is being uploaded: it reads the first 64 KiB and resets
+		io.ReadFull(req.Body, make([]byte, 64<<10))
+	} else if !early {
 		body, rerr := io.ReadAll(req.Body)
 		sum := sha1.Sum(body)
 		a.BodyLen, a.BodySum, a.ReadAll = len(body), hex.EncodeToString(sum[:8]), true
@@ -235,10 +240,18 @@ func concretise(c *retryCase, rnd *rand.Rand) {
 	cc.BodyLen = []int{0, 1, 70000, 32 * 1024}[rnd.Intn(4)]
 	cc.Chunked = cc.BodyLen > 0 && rnd.Intn(2) == 0
 	cc.FailMode = "rst-after-body"
-	if rnd.Intn(4) == 0 {
+	switch rnd.Intn(8) {
+	case 0, 1:
 		cc.FailMode = "rst-before-body"
+	case 2:
+		// a body far larger than the socket buffers, so that the failing backend goes away in
+		// the middle of the upload
+		cc.FailMode = "rst-mid-body"
+		cc.BodyLen = 4 << 20
+		cc.Chunked = rnd.Intn(2) == 0
 	}
 	cc.Rules = rnd.Intn(2) == 0
+	cc.SlowUpload = cc.BodyLen > 0 && cc.FailMode != "rst-mid-body" && rnd.Intn(6) == 0
 	c.Conc = cc
 }
 
@@ -382,7 +395,14 @@ func (e *retryEnv) request(c *retryCase, frontAddr string) (*retryObs, error) {
 	}
 	defer rc.Close()
 	t0 := time.Now()
-	resp, err := rc.Do(method, raw.Bytes())
+	var resp *hx.RawResp
+	if cc.SlowUpload && cc.BodyLen > 0 {
+		// the client's upload alone takes longer than try_duration: the retry window is for the
+		// attempts, a healthy backend must still be reached
+		resp, err = rc.DoSlow(method, raw.Bytes(), raw.Len()-cc.BodyLen/2-1, tryDuration+tryDuration/2)
+	} else {
+		resp, err = rc.Do(method, raw.Bytes())
+	}
 	el := time.Since(t0)
 	if err != nil {
 		return nil, fmt.Errorf("client: %v", err)
